@@ -373,7 +373,10 @@ def signatures(src: str) -> dict:
             if len(a.defaults) != len(ps):        # every parameter after self has a default
                 return out
             names.append((m, ps, a.defaults))
-        out["names"] = [(m, ps) for m, ps, _ in names]
+        # the keyword interface the property's operations use: the leading parameters; further trailing parameters with
+        # defaults (an API-compatible addition) are not part of the fact
+        lead = {"tick": 1, "renew": 2, "trigger_apoptosis": 1}
+        out["names"] = [(m, ps[:lead[m]]) for m, ps, _ in names]
         d = {m: dict(zip(ps, df)) for m, ps, df in names}
 
         def lit(n):
